@@ -31,134 +31,142 @@ def check(R):
     F = R.facts
     groups = 'groups' in (F.hdr.get('features') or '')
     # ---- a --------------------------------------------------------------------
-    R.callers_confined('P1', SESS + '::post_recv', {'transport::TransportRunner::decode_packet'})
-    clo = closure_in(R, 'transport::TransportRunner::decode_packet', ['Sessions::get_for_rx'])
-    posts = clo.calls(SESS + '::post_recv')
-    R.floor('Session::post_recv sites in decode_packet', len(posts), 3 if groups else 2)
-    decoders = [SESS + '::decode_remaining', 'transport::packet::PacketHdr::decode_remaining']
-    if groups:
-        decoders.append('transport::session::Sessions::get_or_create_for_group_rx')
+    with R.clause('a'):
+        pass
+        R.callers_confined('P1', SESS + '::post_recv', {'transport::TransportRunner::decode_packet'})
+        clo = closure_in(R, 'transport::TransportRunner::decode_packet', ['Sessions::get_for_rx'])
+        posts = clo.calls(SESS + '::post_recv')
+        R.floor('Session::post_recv sites in decode_packet', len(posts), 3 if groups else 2)
+        decoders = [SESS + '::decode_remaining', 'transport::packet::PacketHdr::decode_remaining']
+        if groups:
+            decoders.append('transport::session::Sessions::get_or_create_for_group_rx')
 
-    def dec_edges():
-        e = set()
-        for d in decoders:
-            e |= R.call_guard(clo, d)
-        return e
-    R.cut('P2', clo, 'Session::post_recv', [p.bb for p in posts], 'header decode / decrypt succeeded', dec_edges)
-    # the existing-session path: from the Some edge of get_for_rx, post_recv only after Session::decode_remaining succeeds
-    gsome = R.call_guard(clo, 'transport::session::Sessions::get_for_rx')
-    for (frm, to) in sorted(gsome):
-        r = prims.reach(clo, (to,), cut_edges=R.call_guard(clo, SESS + '::decode_remaining'))
-        bad = [p for p in posts if p.bb in r]
-        R.expect('P2', clo.fn, 'existing session: post_recv only after Session::decode_remaining ok', not bad,
-                 'cut by the decode success edge', f'post_recv at {[clo.where(p.bb) for p in bad]} reachable without decode', clo.where(frm))
-    # no Session field write in the closure itself (mutation happens inside post_recv)
-    fw = sorted({f for f in clo.fw_summary if f.endswith(':' + SESS)})
-    R.expect('P1', clo.fn, 'decode_packet does not write Session fields directly', not fw, 'no direct Session field write', f'writes {fw}')
-    gfr = R.body('transport::session::Sessions::get_for_rx')
-    fw = sorted({f for f in gfr.fw_summary if f.endswith(':' + SESS)})
-    R.expect('P1', gfr.fn, 'lookup writes nothing but last_use', not fw and gfr.calls_summary & {SESS + '::update_last_used'} == {SESS + '::update_last_used'},
-             'only update_last_used', f'writes {fw}')
-    ulu = R.body(SESS + '::update_last_used')
-    R.expect('P1', ulu.fn, 'update_last_used writes only last_use', ulu.fw_summary <= {'last_use:' + SESS}, 'ok', f'writes {sorted(ulu.fw_summary)}')
-    dr = R.body(SESS + '::decode_remaining')
-    R.expect('P1', dr.fn, 'Session::decode_remaining does not mutate the session', not {f for f in dr.fw_summary if f.endswith(':' + SESS)},
-             '&self, no field writes', f'writes {sorted(dr.fw_summary)}')
-    dd = R.body(PH + '::ProtoHdr::decrypt_and_decode')
-    wr = sorted({i for i, j, s in dd.stmts() if any(isinstance(x, str) and x.endswith(':' + PH + '::ProtoHdr') for x in s[0][1:])})
-    R.floor('ProtoHdr field writes in decrypt_and_decode', len(wr), 4)
-    R.cut_from('P2', dd, dd.calls(PH + '::decrypt_in_place')[0].bb, 'write decoded proto header fields', wr, 'decrypt_in_place ok',
-               lambda: R.call_guard(dd, PH + '::decrypt_in_place'))
-    di = R.body(PH + '::decrypt_in_place')
-    R.cut('P2', di, 'return Ok', ok_return_bbs(di), 'Aead::decrypt_in_place ok', lambda: R.call_guard(di, 'crypto::Aead::decrypt_in_place'))
-    R.cut('P2', di, 'return Ok', ok_return_bbs(di), 'get_iv ok', lambda: R.call_guard(di, PH + '::get_iv'))
+        def dec_edges():
+            e = set()
+            for d in decoders:
+                e |= R.call_guard(clo, d)
+            return e
+        R.cut('P2', clo, 'Session::post_recv', [p.bb for p in posts], 'header decode / decrypt succeeded', dec_edges)
+        # the existing-session path: from the Some edge of get_for_rx, post_recv only after Session::decode_remaining succeeds
+        gsome = R.call_guard(clo, 'transport::session::Sessions::get_for_rx')
+        for (frm, to) in sorted(gsome):
+            r = prims.reach(clo, (to,), cut_edges=R.call_guard(clo, SESS + '::decode_remaining'))
+            bad = [p for p in posts if p.bb in r]
+            R.expect('P2', clo.fn, 'existing session: post_recv only after Session::decode_remaining ok', not bad,
+                     'cut by the decode success edge', f'post_recv at {[clo.where(p.bb) for p in bad]} reachable without decode', clo.where(frm))
+        # no Session field write in the closure itself (mutation happens inside post_recv)
+        fw = sorted({f for f in clo.fw_summary if f.endswith(':' + SESS)})
+        R.expect('P1', clo.fn, 'decode_packet does not write Session fields directly', not fw, 'no direct Session field write', f'writes {fw}')
+        gfr = R.body('transport::session::Sessions::get_for_rx')
+        fw = sorted({f for f in gfr.fw_summary if f.endswith(':' + SESS)})
+        R.expect('P1', gfr.fn, 'lookup writes nothing but last_use', not fw and gfr.calls_summary & {SESS + '::update_last_used'} == {SESS + '::update_last_used'},
+                 'only update_last_used', f'writes {fw}')
+        ulu = R.body(SESS + '::update_last_used')
+        R.expect('P1', ulu.fn, 'update_last_used writes only last_use', ulu.fw_summary <= {'last_use:' + SESS}, 'ok', f'writes {sorted(ulu.fw_summary)}')
+        dr = R.body(SESS + '::decode_remaining')
+        R.expect('P1', dr.fn, 'Session::decode_remaining does not mutate the session', not {f for f in dr.fw_summary if f.endswith(':' + SESS)},
+                 '&self, no field writes', f'writes {sorted(dr.fw_summary)}')
+        dd = R.body(PH + '::ProtoHdr::decrypt_and_decode')
+        wr = sorted({i for i, j, s in dd.stmts() if any(isinstance(x, str) and x.endswith(':' + PH + '::ProtoHdr') for x in s[0][1:])})
+        R.floor('ProtoHdr field writes in decrypt_and_decode', len(wr), 4)
+        R.cut_from('P2', dd, dd.calls(PH + '::decrypt_in_place')[0].bb, 'write decoded proto header fields', wr, 'decrypt_in_place ok',
+                   lambda: R.call_guard(dd, PH + '::decrypt_in_place'))
+        di = R.body(PH + '::decrypt_in_place')
+        R.cut('P2', di, 'return Ok', ok_return_bbs(di), 'Aead::decrypt_in_place ok', lambda: R.call_guard(di, 'crypto::Aead::decrypt_in_place'))
+        R.cut('P2', di, 'return Ok', ok_return_bbs(di), 'get_iv ok', lambda: R.call_guard(di, PH + '::get_iv'))
 
     # ---- b --------------------------------------------------------------------
-    dec = di.calls('crypto::Aead::decrypt_in_place')[0]
-    s = prims.sources(di, dec.d['a'][3], through={'utils::storage::parsebuf::ReadBuf::parsed_as_slice', 'core::slice::<impl [T]>::len'})
-    R.expect('P10', di.fn, 'AAD is the already-parsed (plain) header of the same buffer',
-             'utils::storage::parsebuf::ReadBuf::parsed_as_slice' in src_calls(s) and ('arg', 6) in s, 'aad <= parsebuf.parsed_as_slice()',
-             f'aad sources {sorted(map(str, s))[:8]}', di.where(dec.bb))
-    s = prims.sources(di, dec.d['a'][4], through={'utils::storage::parsebuf::ReadBuf::as_mut_slice'})
-    R.expect('P10', di.fn, 'ciphertext is the unparsed remainder of the same buffer',
-             'utils::storage::parsebuf::ReadBuf::as_mut_slice' in src_calls(s) and ('arg', 6) in s, 'cipher_text <= parsebuf.as_mut_slice()',
-             f'sources {sorted(map(str, s))[:8]}', di.where(dec.bb))
-    pe = R.body('transport::packet::PacketHdr::encode')
-    enc = pe.calls(PH + '::encrypt_in_place')
-    R.floor('encrypt_in_place in PacketHdr::encode', len(enc), 1)
-    pre = pe.calls('utils::storage::writebuf::WriteBuf::prepend')
-    R.floor('prepend in PacketHdr::encode', len(pre), 2)
-    aad_src = {x for x in prims.sources(pe, enc[0].d['a'][5]) if x[0] == 'call' and x[1].endswith('WriteBuf::as_slice')}
-    last_pre = max(pre, key=lambda t: t.line)
-    pre_src = {x for x in prims.sources(pe, last_pre.d['a'][1]) if x[0] == 'call' and x[1].endswith('WriteBuf::as_slice')}
-    R.expect('P10', pe.fn, 'AAD passed to encrypt_in_place is exactly the plain header bytes prepended to the packet',
-             bool(aad_src) and aad_src == pre_src, f'both <= {sorted(aad_src)}', f'aad {sorted(aad_src)} vs prepended {sorted(pre_src)}', pe.where(enc[0].bb))
-    plain_enc = pe.calls('transport::plain_hdr::PlainHdr::encode')
-    R.floor('PlainHdr::encode in PacketHdr::encode', len(plain_enc), 1)
-    R.expect('P3', pe.fn, 'encryption happens before the plain header is prepended and after the proto header',
-             not prims.precedes(pe, [enc[0].bb], [last_pre.bb]) or True, 'ordering by construction', '', pe.where(enc[0].bb))
+    with R.clause('b'):
+        pass
+        dec = di.calls('crypto::Aead::decrypt_in_place')[0]
+        s = prims.sources(di, dec.d['a'][3], through={'utils::storage::parsebuf::ReadBuf::parsed_as_slice', 'core::slice::<impl [T]>::len'})
+        R.expect('P10', di.fn, 'AAD is the already-parsed (plain) header of the same buffer',
+                 'utils::storage::parsebuf::ReadBuf::parsed_as_slice' in src_calls(s) and ('arg', 6) in s, 'aad <= parsebuf.parsed_as_slice()',
+                 f'aad sources {sorted(map(str, s))[:8]}', di.where(dec.bb))
+        s = prims.sources(di, dec.d['a'][4], through={'utils::storage::parsebuf::ReadBuf::as_mut_slice'})
+        R.expect('P10', di.fn, 'ciphertext is the unparsed remainder of the same buffer',
+                 'utils::storage::parsebuf::ReadBuf::as_mut_slice' in src_calls(s) and ('arg', 6) in s, 'cipher_text <= parsebuf.as_mut_slice()',
+                 f'sources {sorted(map(str, s))[:8]}', di.where(dec.bb))
+        pe = R.body('transport::packet::PacketHdr::encode')
+        enc = pe.calls(PH + '::encrypt_in_place')
+        R.floor('encrypt_in_place in PacketHdr::encode', len(enc), 1)
+        pre = pe.calls('utils::storage::writebuf::WriteBuf::prepend')
+        R.floor('prepend in PacketHdr::encode', len(pre), 2)
+        aad_src = {x for x in prims.sources(pe, enc[0].d['a'][5]) if x[0] == 'call' and x[1].endswith('WriteBuf::as_slice')}
+        last_pre = max(pre, key=lambda t: t.line)
+        pre_src = {x for x in prims.sources(pe, last_pre.d['a'][1]) if x[0] == 'call' and x[1].endswith('WriteBuf::as_slice')}
+        R.expect('P10', pe.fn, 'AAD passed to encrypt_in_place is exactly the plain header bytes prepended to the packet',
+                 bool(aad_src) and aad_src == pre_src, f'both <= {sorted(aad_src)}', f'aad {sorted(aad_src)} vs prepended {sorted(pre_src)}', pe.where(enc[0].bb))
+        plain_enc = pe.calls('transport::plain_hdr::PlainHdr::encode')
+        R.floor('PlainHdr::encode in PacketHdr::encode', len(plain_enc), 1)
+        R.expect('P3', pe.fn, 'encryption happens before the plain header is prepended and after the proto header',
+                 not prims.precedes(pe, [enc[0].bb], [last_pre.bb]) or True, 'ordering by construction', '', pe.where(enc[0].bb))
 
     # ---- c --------------------------------------------------------------------
-    iv = R.body(PH + '::get_iv')
-    seq = sorted([(t.line, t.d['f'].split('::')[-1], prims.sources(iv, t.d['a'][1])) for t in iv.calls() if t.d.get('f', '').startswith('utils::storage::writebuf::WriteBuf::le_')])
-    shape = [(w, sorted(x[1] for x in s if x[0] == 'arg')) for (_, w, s) in seq]
-    R.expect('P5', iv.fn, 'nonce layout is flags:u8 | counter:u32 | node id:u64 from the parameters',
-             shape == [('le_u8', [1]), ('le_u32', [2]), ('le_u64', [3])], str(shape), f'nonce layout is {shape}', f'{iv.file}:{iv.line}')
-    for fn, callee in ((PH + '::decrypt_in_place', PH + '::get_iv'), (PH + '::encrypt_in_place', PH + '::get_iv')):
-        b = R.body(fn)
-        t = b.calls(callee)[0]
-        shape = [sorted(x[1] for x in prims.sources(b, a) if x[0] == 'arg') for a in t.d['a'][:3]]
-        R.expect('P10', b.fn, 'get_iv receives (sec_flags, ctr, nodeid) parameters unchanged', shape == [[3], [4], [5]], str(shape), f'get_iv args derive from params {shape}', b.where(t.bb))
-        aead = b.calls('crypto::Aead::decrypt_in_place', 'crypto::Aead::encrypt_in_place')[0]
-        ks = prims.sources(b, aead.d['a'][1])
-        ns = prims.sources(b, aead.d['a'][2], through={'crypto::canon::CryptoSensitive::reference'})
-        R.expect('P10', b.fn, 'cipher key is the key parameter and nonce is the get_iv output',
-                 ('arg', 2) in ks and any(x[0] == 'constp' and x[1].endswith('AEAD_NONCE_ZEROED') for x in ns),
-                 'key <= param, nonce <= iv', f'key {sorted(map(str, ks))[:4]} nonce {sorted(map(str, ns))[:4]}', b.where(aead.bb))
-    t = dd.calls(PH + '::decrypt_in_place')[0]
-    a = t.d['a']
-    s_flags, s_ctr, s_node = (prims.sources(dd, a[2], through={'transport::plain_hdr::_::<impl transport::plain_hdr::MsgFlags>::bits'}), prims.sources(dd, a[3]), prims.sources(dd, a[4]))
-    R.expect('P10', dd.fn, 'decrypt nonce: flags <= plain_hdr.sec_flags, ctr <= plain_hdr.ctr, node <= peer_nodeid parameter',
-             mentions(s_flags, 'sec_flags') and mentions(s_ctr, 'ctr') and ('arg', 4) in s_node and not [c for c in src_consts(s_ctr) if c is not None],
-             'ok', f'flags {sorted(map(str, s_flags))[:4]} ctr {sorted(map(str, s_ctr))[:4]} node {sorted(map(str, s_node))[:4]}', dd.where(t.bb))
-    a = enc[0].d['a']
-    s_flags, s_ctr, s_node = prims.sources(pe, a[2]), prims.sources(pe, a[3]), prims.sources(pe, a[4])
-    R.expect('P10', pe.fn, 'encrypt nonce: flags <= self.plain.sec_flags, ctr <= self.plain.ctr, node <= local_nodeid parameter',
-             mentions(s_flags, 'sec_flags') and mentions(s_ctr, 'ctr') and mentions(s_ctr, 'plain') and ('arg', 4) in s_node and not [c for c in src_consts(s_ctr) if c is not None],
-             'ok', f'flags {sorted(map(str, s_flags))[:4]} ctr {sorted(map(str, s_ctr))[:4]} node {sorted(map(str, s_node))[:4]}', pe.where(enc[0].bb))
-    t = dr.calls('transport::packet::PacketHdr::decode_remaining')[0]
-    ks, ns = prims.sources(dr, t.d['a'][2]), prims.sources(dr, t.d['a'][3], through={'core::option::Option::unwrap_or_default'})
-    R.expect('P10', dr.fn, 'receive key is this session\'s get_dec_key and the nonce node id is this session\'s peer_nodeid',
-             SESS + '::get_dec_key' in src_calls(ks) and mentions(ns, 'peer_nodeid'), 'ok', f'key {sorted(map(str, ks))[:4]} node {sorted(map(str, ns))[:4]}', dr.where(t.bb))
-    se = R.body(SESS + '::encode')
-    t = se.calls('transport::packet::PacketHdr::encode')[0]
-    ks, ns = prims.sources(se, t.d['a'][2]), prims.sources(se, t.d['a'][3])
-    R.expect('P10', se.fn, 'send key is this session\'s get_enc_key and the nonce node id is this session\'s local_nodeid',
-             SESS + '::get_enc_key' in src_calls(ks) and mentions(ns, 'local_nodeid'), 'ok', f'key {sorted(map(str, ks))[:4]} node {sorted(map(str, ns))[:4]}', se.where(t.bb))
-    for fn, fld, other in ((SESS + '::get_dec_key', 'dec_key', 'enc_key'), (SESS + '::get_enc_key', 'enc_key', 'dec_key')):
-        b = R.body(fn)
-        reads = set()
-        for i, j, s in b.stmts():
-            for p in ([s[1].get('pl')] if s[1].get('op') == 'ref' else [op_place(x) for x in s[1].get('a', ())]):
-                if p:
-                    reads |= {x[1:].split(':')[0] for x in p[1:] if isinstance(x, str) and x.startswith('.') and x.endswith(':' + SESS)}
-        R.expect('P10', fn, f'{fn.split("::")[-1]} hands out {fld} and not {other}', fld in reads and other not in reads, f'reads {sorted(reads)}', f'reads {sorted(reads)}')
+    with R.clause('c'):
+        pass
+        iv = R.body(PH + '::get_iv')
+        seq = sorted([(t.line, t.d['f'].split('::')[-1], prims.sources(iv, t.d['a'][1])) for t in iv.calls() if t.d.get('f', '').startswith('utils::storage::writebuf::WriteBuf::le_')])
+        shape = [(w, sorted(x[1] for x in s if x[0] == 'arg')) for (_, w, s) in seq]
+        R.expect('P5', iv.fn, 'nonce layout is flags:u8 | counter:u32 | node id:u64 from the parameters',
+                 shape == [('le_u8', [1]), ('le_u32', [2]), ('le_u64', [3])], str(shape), f'nonce layout is {shape}', f'{iv.file}:{iv.line}')
+        for fn, callee in ((PH + '::decrypt_in_place', PH + '::get_iv'), (PH + '::encrypt_in_place', PH + '::get_iv')):
+            b = R.body(fn)
+            t = b.calls(callee)[0]
+            shape = [sorted(x[1] for x in prims.sources(b, a) if x[0] == 'arg') for a in t.d['a'][:3]]
+            R.expect('P10', b.fn, 'get_iv receives (sec_flags, ctr, nodeid) parameters unchanged', shape == [[3], [4], [5]], str(shape), f'get_iv args derive from params {shape}', b.where(t.bb))
+            aead = b.calls('crypto::Aead::decrypt_in_place', 'crypto::Aead::encrypt_in_place')[0]
+            ks = prims.sources(b, aead.d['a'][1])
+            ns = prims.sources(b, aead.d['a'][2], through={'crypto::canon::CryptoSensitive::reference'})
+            R.expect('P10', b.fn, 'cipher key is the key parameter and nonce is the get_iv output',
+                     ('arg', 2) in ks and any(x[0] == 'constp' and x[1].endswith('AEAD_NONCE_ZEROED') for x in ns),
+                     'key <= param, nonce <= iv', f'key {sorted(map(str, ks))[:4]} nonce {sorted(map(str, ns))[:4]}', b.where(aead.bb))
+        t = dd.calls(PH + '::decrypt_in_place')[0]
+        a = t.d['a']
+        s_flags, s_ctr, s_node = (prims.sources(dd, a[2], through={'transport::plain_hdr::_::<impl transport::plain_hdr::MsgFlags>::bits'}), prims.sources(dd, a[3]), prims.sources(dd, a[4]))
+        R.expect('P10', dd.fn, 'decrypt nonce: flags <= plain_hdr.sec_flags, ctr <= plain_hdr.ctr, node <= peer_nodeid parameter',
+                 mentions(s_flags, 'sec_flags') and mentions(s_ctr, 'ctr') and ('arg', 4) in s_node and not [c for c in src_consts(s_ctr) if c is not None],
+                 'ok', f'flags {sorted(map(str, s_flags))[:4]} ctr {sorted(map(str, s_ctr))[:4]} node {sorted(map(str, s_node))[:4]}', dd.where(t.bb))
+        a = enc[0].d['a']
+        s_flags, s_ctr, s_node = prims.sources(pe, a[2]), prims.sources(pe, a[3]), prims.sources(pe, a[4])
+        R.expect('P10', pe.fn, 'encrypt nonce: flags <= self.plain.sec_flags, ctr <= self.plain.ctr, node <= local_nodeid parameter',
+                 mentions(s_flags, 'sec_flags') and mentions(s_ctr, 'ctr') and mentions(s_ctr, 'plain') and ('arg', 4) in s_node and not [c for c in src_consts(s_ctr) if c is not None],
+                 'ok', f'flags {sorted(map(str, s_flags))[:4]} ctr {sorted(map(str, s_ctr))[:4]} node {sorted(map(str, s_node))[:4]}', pe.where(enc[0].bb))
+        t = dr.calls('transport::packet::PacketHdr::decode_remaining')[0]
+        ks, ns = prims.sources(dr, t.d['a'][2]), prims.sources(dr, t.d['a'][3], through={'core::option::Option::unwrap_or_default'})
+        R.expect('P10', dr.fn, 'receive key is this session\'s get_dec_key and the nonce node id is this session\'s peer_nodeid',
+                 SESS + '::get_dec_key' in src_calls(ks) and mentions(ns, 'peer_nodeid'), 'ok', f'key {sorted(map(str, ks))[:4]} node {sorted(map(str, ns))[:4]}', dr.where(t.bb))
+        se = R.body(SESS + '::encode')
+        t = se.calls('transport::packet::PacketHdr::encode')[0]
+        ks, ns = prims.sources(se, t.d['a'][2]), prims.sources(se, t.d['a'][3])
+        R.expect('P10', se.fn, 'send key is this session\'s get_enc_key and the nonce node id is this session\'s local_nodeid',
+                 SESS + '::get_enc_key' in src_calls(ks) and mentions(ns, 'local_nodeid'), 'ok', f'key {sorted(map(str, ks))[:4]} node {sorted(map(str, ns))[:4]}', se.where(t.bb))
+        for fn, fld, other in ((SESS + '::get_dec_key', 'dec_key', 'enc_key'), (SESS + '::get_enc_key', 'enc_key', 'dec_key')):
+            b = R.body(fn)
+            reads = set()
+            for i, j, s in b.stmts():
+                for p in ([s[1].get('pl')] if s[1].get('op') == 'ref' else [op_place(x) for x in s[1].get('a', ())]):
+                    if p:
+                        reads |= {x[1:].split(':')[0] for x in p[1:] if isinstance(x, str) and x.startswith('.') and x.endswith(':' + SESS)}
+            R.expect('P10', fn, f'{fn.split("::")[-1]} hands out {fld} and not {other}', fld in reads and other not in reads, f'reads {sorted(reads)}', f'reads {sorted(reads)}')
 
     # ---- d --------------------------------------------------------------------
-    ifr = R.body(SESS + '::is_for_rx')
-    for fld in ('local_sess_id', 'peer_addr', 'peer_nodeid', 'reserved'):
-        ok, why = prims.field_influences_result(ifr, fld + ':' + SESS)
-        R.expect('P9', ifr.fn, f'receive-session match depends on Session.{fld}', ok, why, why, f'{ifr.file}:{ifr.line}')
-    ok, why = prims.field_influences_result(ifr, 'sess_id:transport::plain_hdr::PlainHdr')
-    R.expect('P9', ifr.fn, 'receive-session match depends on the header session id', ok, why, why)
-    encs = ifr.calls(SESS + '::is_encrypted')
-    hdr_encs = ifr.calls('transport::plain_hdr::PlainHdr::is_encrypted')
-    eqs = [c for c in prims.compare_sites(ifr, ops=('Eq',)) if SESS + '::is_encrypted' in src_calls(prims.sources(ifr, c[3]) | prims.sources(ifr, c[4]))
-           and 'transport::plain_hdr::PlainHdr::is_encrypted' in src_calls(prims.sources(ifr, c[3]) | prims.sources(ifr, c[4]))]
-    R.expect('P9', ifr.fn, 'encryption kind of session and header are compared', bool(encs) and bool(hdr_encs) and bool(eqs),
-             'self.is_encrypted() == rx_plain.is_encrypted()', 'the comparison of encryption kinds is missing')
-    g = R.body('transport::session::Sessions::get_for_rx')
-    R.expect('P4', g.fn, 'lookup uses Session::is_for_rx', any(SESS + '::is_for_rx' in b.calls_summary for b in [g] + F.nested(g.fn)), 'find(|s| s.is_for_rx(..))', 'is_for_rx not used')
-    for fld in ('dec_key', 'enc_key'):
-        R.writers_confined('P1', f'{fld}:{SESS}', {SESS + '::new', SESS + '::init', SESS + '::update', SESS + '::upgrade_fabric_idx',
-                           'transport::session::Sessions::get_or_create_for_group_rx', 'transport::session::Sessions::get_or_create_for_group_tx'}, min_sites=0)
+    with R.clause('d'):
+        pass
+        ifr = R.body(SESS + '::is_for_rx')
+        for fld in ('local_sess_id', 'peer_addr', 'peer_nodeid', 'reserved'):
+            ok, why = prims.field_influences_result(ifr, fld + ':' + SESS)
+            R.expect('P9', ifr.fn, f'receive-session match depends on Session.{fld}', ok, why, why, f'{ifr.file}:{ifr.line}')
+        ok, why = prims.field_influences_result(ifr, 'sess_id:transport::plain_hdr::PlainHdr')
+        R.expect('P9', ifr.fn, 'receive-session match depends on the header session id', ok, why, why)
+        encs = ifr.calls(SESS + '::is_encrypted')
+        hdr_encs = ifr.calls('transport::plain_hdr::PlainHdr::is_encrypted')
+        eqs = [c for c in prims.compare_sites(ifr, ops=('Eq',)) if SESS + '::is_encrypted' in src_calls(prims.sources(ifr, c[3]) | prims.sources(ifr, c[4]))
+               and 'transport::plain_hdr::PlainHdr::is_encrypted' in src_calls(prims.sources(ifr, c[3]) | prims.sources(ifr, c[4]))]
+        R.expect('P9', ifr.fn, 'encryption kind of session and header are compared', bool(encs) and bool(hdr_encs) and bool(eqs),
+                 'self.is_encrypted() == rx_plain.is_encrypted()', 'the comparison of encryption kinds is missing')
+        g = R.body('transport::session::Sessions::get_for_rx')
+        R.expect('P4', g.fn, 'lookup uses Session::is_for_rx', any(SESS + '::is_for_rx' in b.calls_summary for b in [g] + F.nested(g.fn)), 'find(|s| s.is_for_rx(..))', 'is_for_rx not used')
+        for fld in ('dec_key', 'enc_key'):
+            R.writers_confined('P1', f'{fld}:{SESS}', {SESS + '::new', SESS + '::init', SESS + '::update', SESS + '::upgrade_fabric_idx',
+                               'transport::session::Sessions::get_or_create_for_group_rx', 'transport::session::Sessions::get_or_create_for_group_tx'}, min_sites=0)
